@@ -2,9 +2,7 @@
    on the harness's cases; one canonical observation line per case. *)
 open Model
 open Conv
-
-let z_of_int n = if n = 0 then Z0 else if n > 0 then Zpos (pos_of_int n) else Zneg (pos_of_int (-n))
-let int_of_z = function Z0 -> 0 | Zpos p -> int_of_pos p | Zneg p -> - (int_of_pos p)
+open Convz
 
 let () =
   let path = Sys.argv.(1) in
